@@ -36,7 +36,7 @@ def apply(F):
 
     F.wrap([], r"pub enum OpModeR<'a, Kem: KemTrait>")
     F.contract([r"impl<Kem: KemTrait> OpModeR<'_, Kem>"], r'fn get_pk_sender_id\b', ret='r', clauses='''
-        ensures /*@C08 C02*/ r == self.sender_pk(),
+        ensures /*@C08 C02 C01*/ r == self.sender_pk(),
 ''')
     F.insert_in([], r"impl<Kem: KemTrait> OpModeR<'_, Kem>", '''
     /// ghost: RFC 9180 §5.1.3/§5.1.4: pkS is an input exactly in the Auth and AuthPsk modes
@@ -46,7 +46,7 @@ def apply(F):
 ''')
     F.wrap([], r"pub enum OpModeS<'a, Kem: KemTrait>")
     F.contract([r"impl<Kem: KemTrait> OpModeS<'_, Kem>"], r'fn get_sender_id_keypair\b', ret='r', clauses='''
-        ensures /*@C08 C02*/ r == self.sender_keypair(),
+        ensures /*@C08 C02 C01*/ r == self.sender_keypair(),
 ''')
     F.insert_in([], r"impl<Kem: KemTrait> OpModeS<'_, Kem>", '''
     /// ghost: RFC 9180 §5.1.3/§5.1.4: skS is an input exactly in the Auth and AuthPsk modes
@@ -56,9 +56,11 @@ def apply(F):
 ''')
 
     T = [r'pub\(crate\) trait OpMode<Kem: KemTrait>']
-    F.contract(T, r'fn mode_id\b', ret='r', clauses='        ensures /*@C02 C07 C08 C15*/ r == self.m_mode()')
-    F.contract(T, r'fn get_psk_bytes\b', ret='r', clauses='        ensures /*@C02 C15 C07 C08*/ r@ == self.m_psk()')
-    F.contract(T, r'fn get_psk_id\b', ret='r', clauses='        ensures /*@C02 C15 C07*/ r@ == self.m_psk_id()')
+    CL = {'mode_id': '        ensures /*@C02 C07 C08 C15 C01*/ r == self.m_mode()',
+          'get_psk_bytes': '        ensures /*@C02 C15 C07 C08 C01*/ r@ == self.m_psk()',
+          'get_psk_id': '        ensures /*@C02 C15 C07 C01*/ r@ == self.m_psk_id()'}
+    for fn in CL:
+        F.contract(T, r'fn %s\b' % fn, ret='r', clauses=CL[fn])
     F.insert_in([], T[0], '''
     spec fn m_mode(&self) -> u8;
     spec fn m_psk(&self) -> Bytes;
@@ -68,7 +70,7 @@ def apply(F):
     for t in ('OpModeR', 'OpModeS'):
         I = [r"impl<Kem: KemTrait> OpMode<Kem> for %s<'_, Kem>" % t]
         for fn in ('mode_id', 'get_psk_bytes', 'get_psk_id'):
-            F.contract(I, r'fn %s\b' % fn, ret='r')
+            F.contract(I, r'fn %s\b' % fn, ret='r', clauses=CL[fn] + ',\n')
         F.insert_in([], I[0], TRAIT_SPEC)
         F.insert_in([], r"impl<Kem: KemTrait> %s<'_, Kem>" % t, MODE_SPEC % {'T': t})
         F.wrap([], I[0])
